@@ -202,29 +202,31 @@ func (m *StateMachine) handleCatchupEvent(
 	// Handle the minimal set of events that can happen during catchup.
 	// While at this height, we are in replay at least until we enter the next round.
 
-	for {
-		select {
-		case <-ctx.Done():
-			m.log.Info(
-				"State machine kernel quitting due to context cancellation in main loop (catchup)",
-				"cause", context.Cause(ctx),
-				"height", rlc.H, "round", rlc.R, "step", rlc.S,
-			)
+	// One event per call: the kernel loop re-checks rlc.IsReplaying() afterwards,
+	// so that the machine leaves catchup handling once it has entered a live round.
+	select {
+	case <-ctx.Done():
+		m.log.Info(
+			"State machine kernel quitting due to context cancellation in main loop (catchup)",
+			"cause", context.Cause(ctx),
+			"height", rlc.H, "round", rlc.R, "step", rlc.S,
+		)
+		return false
+
+	case resp := <-rlc.FinalizeRespCh:
+		// During a replay, we are blocked waiting for a finalization.
+
+		// The RLC step is kind of meaningless during replay,
+		// but handleFinalization expects the step to be awaiting finalization
+		// in order to advance to the next height,
+		// so we just fake it here.
+		rlc.S = tsi.StepAwaitingFinalization
+		if !m.handleFinalization(ctx, rlc, resp) {
 			return false
-
-		case resp := <-rlc.FinalizeRespCh:
-			// During a replay, we are blocked waiting for a finalization.
-
-			// The RLC step is kind of meaningless during replay,
-			// but handleFinalization expects the step to be awaiting finalization
-			// in order to advance to the next height,
-			// so we just fake it here.
-			rlc.S = tsi.StepAwaitingFinalization
-			if !m.handleFinalization(ctx, rlc, resp) {
-				return false
-			}
 		}
 	}
+
+	return true
 }
 
 func (m *StateMachine) handleLiveEvent(
@@ -1801,6 +1803,12 @@ func (m *StateMachine) advance(
 	} else {
 		// The state machine is still catching up with the mirror.
 		rlc.MarkCatchingUp()
+
+		// The commit wait counts as elapsed during catchup,
+		// so the only thing left to wait for is the finalization.
+		// Without this, a step left over from the previous live round
+		// keeps handleFinalization from advancing the height.
+		rlc.S = tsi.StepAwaitingFinalization
 
 		// In replay, we just directly make a finalize block request.
 		finReq := tmdriver.FinalizeBlockRequest{
